@@ -257,28 +257,40 @@ Section Generic.
     destruct ((n <? min_npoints c) || (guard c && false)); discriminate.
   Qed.
 
-  Lemma ask_answers c s n commit hint : 1 <= n ->
+  (* ask(n) with n >= 1 never raises (np.isfinite(inf) is false) *)
+  Lemma ask_answers c s n commit hint : n_finite N (n_inf N) = false -> 1 <= n ->
     exists imp, snd (ask c s n commit hint) = Asked N (ask_points s n hint) imp.
   Proof.
-    intros Hn. unfold ask. destruct n as [|n]; [lia|].
+    intros Hfin Hn. unfold ask. destruct n as [|n]; [lia|].
     assert (exists li, loss_improvement c s (S n) = Some li) as [li ->].
     { unfold loss_improvement. destruct (loss c s true) as [l|] eqn:E; [|exfalso; eapply loss_real_some; eauto].
       destruct (n_finite N l) eqn:Ef; [|eauto].
       destruct (loss_n c s (npoints s + S n)) eqn:E2; [eauto|].
       exfalso. revert E2. apply loss_n_some_pos.
       (* a finite loss means at least min_npoints >= 2 values *)
-      unfold loss, loss_n, mean in E. destruct (npoints s) as [|k]; [|lia].
-      cbn in E. rewrite andb_true_r in E. destruct (guard c); cbn in E; [|discriminate].
-      discriminate. }
+      destruct (npoints s) as [|k] eqn:En; [|lia].
+      unfold loss, loss_n in E. rewrite En in E.
+      assert (Hm : (0 <? min_npoints c) = true) by (apply Nat.ltb_lt; unfold min_npoints; lia).
+      rewrite Hm in E. cbn [orb] in E. congruence. }
     eexists. reflexivity.
   Qed.
 
-  Lemma ask_commits c s n hint p : 1 <= n ->
-    In p (ask_points s n hint) -> In p (pend (fst (ask c s n true hint))).
+  (* whatever ask returns are the points of [ask_points]; a committing ask marks them pending *)
+  Lemma ask_returns c s n commit hint pts imp :
+    snd (ask c s n commit hint) = Asked N pts imp -> pts = ask_points s n hint /\ 1 <= n.
   Proof.
-    intros Hn Hp. unfold ask. destruct n as [|n]; [lia|].
-    destruct (ask_answers c s (S n) true hint Hn) as [imp Hi]. unfold ask in Hi.
+    unfold ask. destruct n as [|n]; [discriminate|].
     destruct (loss_improvement c s (S n)); [|discriminate].
+    cbn [snd]. intros H. inversion H. split; [reflexivity|lia].
+  Qed.
+
+  Lemma ask_commits c s n hint pts imp p :
+    snd (ask c s n true hint) = Asked N pts imp ->
+    In p pts -> In p (pend (fst (ask c s n true hint))).
+  Proof.
+    intros Hs Hp. destruct (ask_returns _ _ _ _ _ _ _ Hs) as [-> _]. revert Hs. unfold ask.
+    destruct n as [|n]; [discriminate|].
+    destruct (loss_improvement c s (S n)); [|discriminate]. intros _.
     cbn [fst]. rewrite fold_pending_pend. apply fold_insert_In. left; exact Hp.
   Qed.
 
@@ -286,7 +298,7 @@ Section Generic.
   Lemma std_undefined c s : npoints s < min_npoints c -> std c s = n_inf N.
   Proof. intros H. unfold std. apply Nat.ltb_lt in H. rewrite H. reflexivity. Qed.
 
-  Lemma loss_undefined c s real :
+  Lemma loss_undefined c s (real : bool) :
     (if real then npoints s else n_requested s) < min_npoints c -> loss c s real = Some (n_inf N).
   Proof. intros H. unfold loss, loss_n. apply Nat.ltb_lt in H. rewrite H. reflexivity. Qed.
 
@@ -296,14 +308,14 @@ Section Generic.
     unfold loss, loss_n, mean, n_requested.
     destruct (npoints s) as [|k]; cbn [Nat.eqb plus].
     - rewrite andb_true_r. destruct (length (pend s) <? min_npoints c) eqn:E; cbn [orb].
-      + apply Nat.ltb_lt in E. split; [discriminate|lia].
+      + apply Nat.ltb_lt in E. split; [discriminate|intros [_ [_ ?]]; lia].
       + apply Nat.ltb_ge in E. destruct (guard c); split; try discriminate; try tauto.
         intros [? _]; discriminate.
     - rewrite andb_false_r.
-      destruct ((S k + length (pend s) <? min_npoints c) || false); split; try discriminate; lia.
+      match goal with |- context [if ?b then _ else _] => destruct b end; (split; [discriminate|intros [_ [? _]]; lia]).
   Qed.
 
-  Lemma loss_total_repaired c s real : guard c = true -> loss c s real <> None.
+  Lemma loss_total_repaired c s (real : bool) : guard c = true -> loss c s real <> None.
   Proof.
     intros Hg. destruct real; [apply loss_real_some|].
     intros H. apply loss_exp_raises_iff in H. destruct H as [H _]. congruence.
@@ -314,6 +326,7 @@ Section Generic.
     loss c (reach c [TellPending 0; TellPending 1]) false = None.
   Proof. reflexivity. Qed.
 End Generic.
+Arguments Inv {N} s.
 Arguments inv_nodup {N s}. Arguments inv_npoints {N s}. Arguments inv_sum {N s}.
 Arguments inv_sumsq {N s}. Arguments inv_pend {N s}.
 
@@ -330,7 +343,7 @@ Definition ROps (infR : R) : NumOps :=
   mkNumOps 0%R infR Rplus Rminus Rmult Rdiv sqrt (fun x => (x * x)%R) Rabs
            Rltb Rleb Reqb (fun _ => true) INR.
 
-Definition sumR (l : list R) : R := fold_right Rplus 0%R l.
+Fixpoint sumR (l : list R) : R := match l with [] => 0%R | x :: l' => (x + sumR l')%R end.
 (* sample mean, corrected sample variance *)
 Definition meanR (l : list R) : R := (sumR l / INR (length l))%R.
 Definition sqdevR (l : list R) (m : R) : R := sumR (map (fun y => ((y - m) * (y - m))%R) l).
@@ -339,25 +352,25 @@ Definition varR (l : list R) : R := (sqdevR l (meanR l) / INR (length l - 1))%R.
 Local Open Scope R_scope.
 
 Lemma fold_left_Rplus l : forall a, fold_left Rplus l a = a + sumR l.
-Proof. induction l as [|x l IH]; cbn [fold_left sumR fold_right]; intros a; [lra|]. rewrite IH. lra. Qed.
+Proof. induction l as [|x l IH]; cbn [fold_left sumR]; intros a; [lra|]. rewrite IH. lra. Qed.
 
 Lemma suml_R infR l : suml (ROps infR) l = sumR l.
 Proof. unfold suml. cbn. rewrite fold_left_Rplus. lra. Qed.
 
 Lemma sumR_app l1 l2 : sumR (l1 ++ l2) = sumR l1 + sumR l2.
-Proof. induction l1 as [|a l1 IH]; cbn [app sumR fold_right]; [lra|]. unfold sumR in IH. rewrite IH. lra. Qed.
+Proof. induction l1 as [|a l1 IH]; cbn [app sumR]; [lra|]. rewrite IH. lra. Qed.
 
 Lemma sqdev_expand l m :
   sqdevR l m = sumR (map (fun y => y * y) l) - 2 * m * sumR l + INR (length l) * (m * m).
 Proof.
   unfold sqdevR. induction l as [|y l IH]; [cbn; lra|].
-  cbn [map sumR fold_right length]. rewrite S_INR. unfold sumR in IH. rewrite IH. ring.
+  cbn [map sumR length]. rewrite S_INR, IH. ring.
 Qed.
 
 Lemma sqdev_nonneg l m : 0 <= sqdevR l m.
 Proof.
-  unfold sqdevR. induction l as [|y l IH]; cbn [map sumR fold_right]; [lra|].
-  unfold sumR in IH. pose proof (Rle_0_sqr (y - m)) as H. unfold Rsqr in H. lra.
+  unfold sqdevR. induction l as [|y l IH]; cbn [map sumR]; [lra|].
+  pose proof (Rle_0_sqr (y - m)) as H. unfold Rsqr in H. lra.
 Qed.
 
 (* sum of squares - n * mean^2 = sum of squared deviations from the mean *)
@@ -373,6 +386,8 @@ Lemma pymax_R infR a b : pymax (ROps infR) a b = Rmax a b.
 Proof.
   unfold pymax. cbn. unfold Rltb, Rmax. destruct (Rlt_dec a b), (Rle_dec a b); try reflexivity; lra.
 Qed.
+
+Local Close Scope R_scope.
 
 Section Real.
   Variable infR : R.
@@ -394,24 +409,24 @@ Section Real.
   Lemma std_R c s : Inv s -> min_npoints c <= npoints s -> std c s = sqrt (varR (values s)).
   Proof.
     intros H Hn. unfold std. apply Nat.ltb_ge in Hn as Hb. rewrite Hb.
-    assert (Hlen : length (values s) = npoints s) by (unfold values; rewrite map_length, (inv_npoints H); reflexivity).
+    assert (Hlen : @length R (values s) = npoints s) by (unfold values; rewrite map_length, (inv_npoints H); reflexivity).
     assert (Hne : values s <> []).
     { intros E. rewrite E in Hlen. cbn in Hlen. unfold min_npoints in Hn. lia. }
     assert (Hnum : std_numerator s = sqdevR (values s) (meanR (values s))).
     { unfold std_numerator. rewrite (inv_sumsq H), suml_R, (mean_val_R s H).
       cbn [n_sub n_mul n_of_nat n_sq ROps]. rewrite <- Hlen. apply (moment_identity _ Hne). }
     rewrite Hnum. cbn [n_ltb n_zero n_sqrt n_div n_of_nat ROps].
-    unfold Rltb. destruct (Rlt_dec (sqdevR (values s) (meanR (values s))) 0) as [Hlt|_].
+    unfold Rltb. destruct (Rlt_dec (sqdevR (values s) (meanR (values s))) 0%R) as [Hlt|_].
     - pose proof (sqdev_nonneg (values s) (meanR (values s))). lra.
-    - unfold varR. rewrite Hlen. reflexivity.
+    - unfold varR; rewrite Hlen. reflexivity.
   Qed.
 
   (* the standard error relative to the tolerances *)
   Definition loss_spec c (sd m : R) (n : nat) : R :=
-    let se := sd / sqrt (INR n) in
-    Rmax (se / atol c) (if Req_EM_T m 0 then se / rtol c else se / rtol c / Rabs m).
+    let se := (sd / sqrt (INR n))%R in
+    Rmax (se / atol c)%R (if Req_EM_T m 0%R then (se / rtol c)%R else (se / rtol c / Rabs m)%R).
 
-  Lemma loss_R c s real : Inv s -> min_npoints c <= npoints s ->
+  Lemma loss_R c s (real : bool) : Inv s -> min_npoints c <= npoints s ->
     loss c s real =
     Some (loss_spec c (std c s) (meanR (values s)) (if real then npoints s else npoints s + length (pend s))).
   Proof.
@@ -423,6 +438,6 @@ Section Real.
     replace (if real then npoints s else npoints s + length (pend s)) with n by reflexivity.
     rewrite Hnn, Hz, andb_false_r. cbn [orb]. rewrite (mean_R s H Hp).
     f_equal. rewrite pymax_R. unfold loss_spec. cbn [n_div n_sqrt n_of_nat n_eqb n_zero n_abs ROps].
-    unfold Reqb. destruct (Req_EM_T (meanR (values s)) 0); reflexivity.
+    unfold Reqb. destruct (Req_EM_T (meanR (values s)) 0%R); reflexivity.
   Qed.
 End Real.
